@@ -23,13 +23,14 @@ VERIF = os.path.dirname(os.path.dirname(os.path.abspath(__file__)))
 REPO = os.environ.get("VERIF_REPO", "/repo")
 HARNESS_DIR = os.path.join(VERIF, "harness")
 GEN_DIR = os.path.join(VERIF, "gen")
-EVIDENCE_DIR = os.path.join(VERIF, "evidence")
-REPLAY_DIR = os.path.join(VERIF, "replays")
+EVIDENCE_DIR = os.environ.get("VERIF_EVIDENCE_DIR") or os.path.join(VERIF, "evidence")
+REPLAY_DIR = os.environ.get("VERIF_REPLAY_DIR") or os.path.join(VERIF, "replays")
 KNOWN = os.path.join(VERIF, "known_findings.json")
 SCRATCH_ROOT = os.environ.get("VERIF_SCRATCH", "/var/tmp")
 JOBS = int(os.environ.get("VERIF_JOBS", "14"))
 TOTAL_MEM_KB = int(os.environ.get("VERIF_TOTAL_MEM_KB", str(50 * 1024 * 1024)))
 MEM_KB = int(os.environ.get("VERIF_MEM_KB", str(10 * 1024 * 1024)))  # per process (ulimit -v)
+SOLO_MEM_KB = int(os.environ.get("VERIF_SOLO_MEM_KB", str(40 * 1024 * 1024)))  # retry alone
 
 CRATE_OF_DIR = {"vm": "gluon_vm", "base": "gluon_base", "parser": "gluon_parser",
                 "check": "gluon_check", "format": "gluon_format"}
@@ -184,6 +185,14 @@ class Workspace:
             modname = "__verif_" + re.sub(r"[^A-Za-z0-9]", "_", os.path.basename(src)[:-3]).lower()
             with open(tgt, "a") as f:
                 f.write('\n#[cfg(kani)] #[path = "%s"] mod %s;\n' % (dst, modname))
+            # `//@@ crate-feature: <name>`: an unstable library feature the harness itself needs (to
+            # name a std type in a stub signature); enabled under cfg(kani) only, at the crate root
+            for feat in re.findall(r"^//@@\s*crate-feature:\s*(\w+)", open(src).read(), re.M):
+                root = os.path.join(self.repo, append_to.split("/")[0], "src", "lib.rs")
+                txt = open(root).read()
+                line = "#![cfg_attr(kani, feature(%s))]\n" % feat
+                if line not in txt:
+                    open(root, "w").write(line + txt)
 
 
 class Inconclusive(Exception):
@@ -204,13 +213,36 @@ def run(cmd, cwd, timeout, logfile, env=None, mem_kb=None):
     with open(logfile, "ab") as lf:
         lf.write(("\n$ " + " ".join(cmd) + "\n").encode())
         lf.flush()
+        # own process group, so that a timeout -- or the end of this driver -- takes cargo-kani,
+        # kani-driver and every cbmc of this run down with it and nothing else
+        p = subprocess.Popen(["bash", "-c", pre + " ".join(shquote(c) for c in cmd)], cwd=cwd, env=e,
+                             stdout=lf, stderr=subprocess.STDOUT, start_new_session=True)
+        _children.add(p.pid)
         try:
-            p = subprocess.run(["bash", "-c", pre + " ".join(shquote(c) for c in cmd)], cwd=cwd, env=e,
-                               stdout=lf, stderr=subprocess.STDOUT, timeout=timeout)
-            return p.returncode
+            return p.wait(timeout=timeout)
         except subprocess.TimeoutExpired:
-            subprocess.call(["pkill", "-x", "cbmc"])  # best effort; scratch processes only
+            _killpg(p.pid)
+            p.wait()
             return -9
+        finally:
+            _children.discard(p.pid)
+
+
+_children = set()
+
+
+def _killpg(pid):
+    import signal
+    try:
+        os.killpg(pid, signal.SIGKILL)
+    except OSError:
+        pass
+
+
+def _on_term(signum, frame):
+    for pid in list(_children):
+        _killpg(pid)
+    raise SystemExit(2)
 
 
 def shquote(s):
@@ -275,7 +307,7 @@ def resolve_unwindset(harnesses, patterns):
     return uw
 
 
-def run_group(ws, crate, group, logfile, tier, _second_pass=False, _uw=None):
+def run_group(ws, crate, group, logfile, tier, _second_pass=False, _uw=None, _solo=False):
     names = [h.name for h in group]
     filt = []
     for n in names:
@@ -307,8 +339,15 @@ def run_group(ws, crate, group, logfile, tier, _second_pass=False, _uw=None):
     jsn = os.path.join(ws.root, "export-%s-%d.json" % (crate, abs(hash(tuple(names))) % 100000))
     cap = max(h.cap for h in group)
     mem_kb = group[0].mem_gb * 1024 * 1024 if group[0].mem_gb else MEM_KB
+    if _solo:
+        mem_kb = SOLO_MEM_KB
     jobs = max(1, min(JOBS, len(group), TOTAL_MEM_KB // mem_kb))
-    cmd = kani_base(ws, crate) + filt + ["-j", str(jobs), "--output-format", "terse",
+    # exact, fully qualified names: kani's default filter is a substring match, which would also run
+    # (and pay for) every harness whose name merely starts with a selected one
+    exact = ["--exact"]
+    for h in group:
+        exact += ["--harness", h.pretty]
+    cmd = kani_base(ws, crate) + exact + ["-j", str(jobs), "--output-format", "terse",
                                          "--output-into-files", "--harness-timeout", "%ds" % cap,
                                          "--export-json", jsn]
     if uw:
@@ -338,6 +377,15 @@ def run_group(ws, crate, group, logfile, tier, _second_pass=False, _uw=None):
                 h.retried = True
                 h.failed, h.unsat_covers = [], []
             run_group(ws, crate, retry, logfile, tier, _second_pass=True, _uw=dict(uw, **uw2))
+    # A harness that ran out of memory or time while sharing the machine with its siblings gets one
+    # more run on its own with the whole memory budget before it counts as inconclusive (a verdict
+    # is never invented: the retry is the same query, only the resources differ).
+    if not _solo:
+        for h in [h for h in group if h.status in ("OOM", "TIMEOUT", "ERROR")]:
+            log("retrying %s alone (%s in the shared run)" % (h.name, h.status))
+            h.first_status = h.status
+            h.failed, h.unsat_covers = [], []
+            run_group(ws, crate, [h], logfile, tier, _second_pass=True, _uw=uw or None, _solo=True)
 
 
 # CBMC float checks that Kani turns on (--nan-check) but that are not Rust panics: producing a NaN
@@ -606,6 +654,8 @@ def write_evidence(prop, tier, seed, sel, uncovered, t0, note=None, violations=0
             s["known_findings"] = sorted({k["what"] for k, _ in h.known})
         if getattr(h, "replay", None):
             s["replay"] = h.replay
+        if getattr(h, "first_status", None):
+            s["rerun_alone_after"] = h.first_status
         samples.append(s)
     proofs = [h for h in sel if not h.is_canary]
     ev = {
@@ -654,5 +704,8 @@ def write_evidence(prop, tier, seed, sel, uncovered, t0, note=None, violations=0
 
 
 if __name__ == "__main__":
+    import signal
+    signal.signal(signal.SIGTERM, _on_term)
+    signal.signal(signal.SIGINT, _on_term)
     sys.path.insert(0, os.path.dirname(os.path.abspath(__file__)))
     sys.exit(main())
